@@ -47,7 +47,7 @@ def tset(xs) -> str:
 
 
 def consts(**kw) -> dict:
-    c = dict(DELMODE="-D", VARIANT=BASELINE, OPS=["load"], REFS1=ALL_REFS, REFS2=["HEAD"], ANALYSES=CLEAN_AN, STATUS=["clean", "dirty"], EXTATS=[0, 1],
+    c = dict(KEYMODE="filepath", DELMODE="-D", VARIANT=BASELINE, OPS=["load"], REFS1=ALL_REFS, REFS2=["HEAD"], ANALYSES=CLEAN_AN, STATUS=["clean", "dirty"], EXTATS=[0, 1],
              INTRAT=SAFE, MAXINTR=1, NOTREPO=False, LATEST=False, NOTAGS=False)
     c.update(kw)
     return {k: (tset(v) if isinstance(v, list) else ("TRUE" if v is True else "FALSE" if v is False else v)) for k, v in c.items()}
@@ -93,6 +93,9 @@ def domains(tier: str) -> list:
         # __pycache__; if the real code ever behaves like this again the replay reports a VIOLATION
         # (finding C20-untracked-files-block-worktree-remove is "fixed" and suppresses nothing)
         regression,
+        # regression domain (model only): lines keyed by the symlink-resolved path - the symlinked module loses its lines
+        ("regression-lines-realpath", consts(KEYMODE="realpath", OPS=["load", "check"], REFS1=["v1"], REFS2=["HEAD", "WT"], ANALYSES=["static"], STATUS=["clean"],
+                                             EXTATS=[0], INTRAT=[]), "leak", False),
         # regression domain (model only): `git branch -d` instead of `-D` - refused for refs that are not merged into
         # the user's HEAD (diverging branch side/y): the temporary branch leaks
         ("regression-branch-d", consts(DELMODE="-d", OPS=["load", "check"], REFS1=["v1", "side/y"], REFS2=["HEAD", "side/y"], ANALYSES=["static"], STATUS=["clean"],
